@@ -1,4 +1,5 @@
 import KyupyVerif.Proofs.DataPathArr
+import KyupyVerif.Proofs.CycleStrip
 /-! The array-level data-path statement against ANY solution of the netlist's gate equations (generic in the arity): given that
 the one-lane simulator computes the unique solution (C02 `sim8/4/2_all_circuits`), entry `[q][p]` of the result is the code of
 the value the solution for stimulus pattern `p` gives the captured line. -/
@@ -57,6 +58,58 @@ theorem simArr_val (V : ∀ nb, LaneView (C nb) nb (ln nb) ofCode code keep)
   · have hnp : isPoppo net q = false := by unfold isPoppo; simp [hq, hn]
     rw [he q p (by omega) hp, hnp]
     simp
+
+/-- two well-formed arrays of the same shape with the same entries are equal -/
+theorem arr_ext (r r' : Arr Nat) (hw : r.wf = true) (hw' : r'.wf = true) (hl : r.lead = r'.lead) (hn : r.last = r'.last)
+    (he : ∀ q p, q < r.lead.prod → p < r.last → (r.rows.getD q []).getD p 0 = (r'.rows.getD q []).getD p 0) : r = r' := by
+  obtain ⟨h1, h2⟩ := (wf_iff r).mp hw
+  obtain ⟨h1', h2'⟩ := (wf_iff r').mp hw'
+  cases r with
+  | mk lead last rows =>
+    cases r' with
+    | mk lead' last' rows' =>
+      simp only at hl hn h1 h2 h1' h2' he
+      subst hl hn
+      simp only [Arr.mk.injEq, true_and]
+      apply List.ext_getElem (by rw [h1, h1'])
+      intro i hi hi'
+      have hri := h2 _ (List.getElem_mem hi)
+      have hri' := h2' _ (List.getElem_mem hi')
+      apply List.ext_getElem (by rw [hri, hri'])
+      intro j hj hj'
+      have := he i j (by omega) (by omega)
+      simpa [List.getD_eq_getElem?_getD, List.getElem?_eq_getElem hi, List.getElem?_eq_getElem hi',
+        List.getElem?_eq_getElem hj, List.getElem?_eq_getElem hj'] using this
+
+/-- **`strip_forks` does not change the result array**: domain hypotheses `forksOKB` (C06) and `capDriversB` (the order contains the
+    driver of every captured line), one-lane op semantics in which `BUF1` returns its first operand -/
+theorem simArr_strip (V : ∀ nb, LaneView (C nb) nb (ln nb) ofCode code keep)
+    (hl : ∀ nb p, p < 8 * nb → ∀ (ops : List Op) (env : Nat → A nb) (l : Nat),
+      ln nb p (exec (semW nb) ops env l) = exec semL ops (fun x => ln nb p (env x)) l)
+    (tbl : List PrefixRow) (net : Net) (order : List Nat) (hwf : net.wfB = true) (ho : orderOKB net order = true)
+    (hf : forksOKB net order = true) (hcov : capDriversB net order = true)
+    (dflt : β) (hbuf : ∀ xs, semL BUF1 xs = xs.getD 0 dflt)
+    (a : Arr Nat) (ha : a.wf = true) (hS : a.lead = [net.sNodes.length]) :
+    simArr C (fun nb op => semW nb op.code) tbl net order true a = simArr C (fun nb op => semW nb op.code) tbl net order false a := by
+  obtain ⟨r, hr, hlead, hlast, hrwf, he⟩ := simArr_entries C ln ofCode code keep semW semL V hl tbl net order true a ha hS
+  obtain ⟨r', hr', hlead', hlast', hrwf', he'⟩ := simArr_entries C ln ofCode code keep semW semL V hl tbl net order false a ha hS
+  rw [hr, hr']
+  congr 1
+  apply arr_ext r r' hrwf hrwf' (by rw [hlead, hlead']) (by rw [hlast, hlast'])
+  intro q p hq hp
+  have hq' : q < net.sNodes.length := by rw [hlead] at hq; simpa using hq
+  have hp' : p < a.last := by rw [hlast] at hp; exact hp
+  rw [he q p hq' hp', he' q p hq' hp']
+  by_cases hcap : isPoppo net q = true
+  · simp only [hcap, if_true]
+    congr 1
+    have := captured_strip tbl hwf ho hf hcov semL dflt hbuf (ofCode 0) (column ofCode a p) (fun _ => ofCode 0) (fun _ => ofCode 0)
+      (Agree.refl _ _ _) q hq'
+    unfold solOf at this
+    unfold laneRun
+    rw [exec_eq_execG, exec_eq_execG]
+    exact this
+  · simp [hcap]
 
 end
 
